@@ -99,7 +99,7 @@ func runPRNG(c *Ctx) *Violation {
 	}
 	// restart@k for every k in 0..L
 	live := newGen(kind, seed)
-	var lastEnc []byte
+	var lastEnc, firstEnc, firstCopy []byte
 	for k := 0; k <= L; k++ {
 		kk := k
 		if v := c.Guard(name+"/restart", desc(fmt.Sprintf("checkpoint after %d draws", kk)), func() *Violation {
@@ -113,6 +113,9 @@ func runPRNG(c *Ctx) *Violation {
 				return viol("prng-state/"+name+"/marshal", "two MarshalBinary calls on the same state differ")
 			}
 			lastEnc = enc
+			if firstEnc == nil {
+				firstEnc, firstCopy = enc, append([]byte(nil), enc...)
+			}
 			r := blankGen(kind)
 			if err := r.UnmarshalBinary(enc); err != nil {
 				return viol("prng-state/"+name+"/restart", "UnmarshalBinary of a state saved after %d draws failed: %v", kk, err)
@@ -145,6 +148,12 @@ func runPRNG(c *Ctx) *Violation {
 	}
 	c.agg.Exhaustive["prng-state/restart_points_per_generator"] = L + 1
 	enc := lastEnc
+	if firstEnc != nil {
+		c.Oracle("encoding-immutable")
+		if !bytes.Equal(firstEnc, firstCopy) {
+			return viol("prng-state/"+name+"/encoding-changed-after-return", "the bytes returned by the first MarshalBinary call were changed by later calls")
+		}
+	}
 	// truncation at every length
 	step := 1
 	if len(enc) > 200 {
@@ -305,12 +314,25 @@ func runHLL(c *Ctx) *Violation {
 			k int
 		}
 		var rs []restored
+		// every encoding handed out by MarshalBinary, with a private copy:
+		// a checkpoint must not change under the caller's feet
+		var handed, copies [][]byte
+		keep := func(b []byte) []byte {
+			handed = append(handed, b)
+			copies = append(copies, append([]byte(nil), b...))
+			return b
+		}
+		defer func() {
+			// (runs before the closure's result is returned; violations are
+			// reported by the explicit check below)
+		}()
 		for i := 0; i <= n; i++ {
 			if points[i] {
 				enc, err := ref.MarshalBinary()
 				if err != nil {
 					return viol("hll-state/"+name+"/marshal", "MarshalBinary after %d writes: %v", i, err)
 				}
+				keep(enc)
 				// (a) into a sketch without a hash: the registered hash is picked
 				a := zeroSketch(bits)
 				if err := a.UnmarshalBinary(enc); err != nil {
@@ -345,6 +367,19 @@ func runHLL(c *Ctx) *Violation {
 			}
 		}
 		final, _ = ref.MarshalBinary()
+		keep(final)
+		// a second sketch of another precision is marshalled in between
+		o2, _ := newSketch(bits, 4+(prec-3)%7, hashCtor(bits, which))
+		o2.Write(item(n + 1))
+		if b2, err := o2.MarshalBinary(); err == nil {
+			keep(b2)
+		}
+		c.Oracle("encoding-immutable")
+		for i := range handed {
+			if !bytes.Equal(handed[i], copies[i]) {
+				return viol("hll-state/"+name+"/encoding-changed-after-return", "the bytes returned by MarshalBinary (checkpoint %d of %d) were changed by a later MarshalBinary call: a saved checkpoint silently becomes another state", i, len(handed))
+			}
+		}
 		// continue every restored sketch with the writes it missed
 		for _, r := range rs {
 			for i := r.k; i < n; i++ {
